@@ -453,7 +453,8 @@ def execute(h):
                     # taken apart when it is rendered inside another one)
                     lost = [s for s, (_b, e) in zip(
                         act['units'], model.types[act['type']]['items'])
-                        if e and s.isalnum() and s not in info['sym']]
+                        if e and s.isalnum() and s not in info['sym']
+                        and decl.lib_sym(s) is s]
                     bump(probes, 'generated_unit_symbol')
                     if lost:
                         violate('directory', 'generated_symbol_names_other_'
